@@ -61,6 +61,25 @@ class History:
         controls = {"me": "local.test", "locals": ["local.test"], "queuelifetime": self.lifetime,
                     "concurrencylocal": self.conc[0], "concurrencyremote": self.conc[1]}
         controls.update(p.extra_controls)
+        self.vdoms = {}
+        self.doublebounceto = b"postmaster@local.test"
+        if p.virtual:
+            # bounce-related configuration variations (C14): every generated file stays inside the documented forms
+            bh = rng.choice([None, "bounce.test", "local.test"])
+            if bh:
+                controls["bouncehost"] = bh
+            if rng.random() < 0.5:
+                controls["bouncefrom"] = rng.choice(["BOUNCER", "mailer daemon", "a.b"])
+            dto = rng.choice([None, "dbl", "double-bounce"])
+            dhost = rng.choice([None, "local.test", "remote.test"])
+            if dto:
+                controls["doublebounceto"] = dto
+            if dhost:
+                controls["doublebouncehost"] = dhost
+            self.doublebounceto = (dto or "postmaster").encode() + b"@" + (dhost or "local.test").encode()
+            if rng.random() < 0.7:
+                controls["virtualdomains"] = ["virt.test:vuser", "other.test:alias-other"]
+                self.vdoms = {b"virt.test": b"vuser", b"other.test": b"alias-other"}
         self.ledger = ledgermod.Ledger(res, lifetime=self.lifetime)
         self.oracles = [self.ledger] + [oc(res, self) for oc in oracle_classes]
         self.sim = qsim.Sim(b, controls=controls, spawn_limit=self.spawn, gate_m=p.gate_m,
@@ -97,7 +116,10 @@ class History:
         sender = {"user": b"s%d@local.test" % m, "user-remote": b"s%d@remote.test" % m, "empty": b"", "double": b"#@[]",
                   "verp": b"list%d-@local.test-@[]" % m}[kind]
         n = rng.randint(0 if rng.random() < 0.05 else 1, p.max_rcpts)
-        rc = [b"r%d.%d@%s" % (m, k, rng.choice([b"local.test", b"remote.test", b"LOCAL.test"])) for k in range(n)]
+        doms = [b"local.test", b"remote.test", b"LOCAL.test"] + ([b"virt.test", b"Other.Test"] if self.vdoms else [])
+        rc = [b"r%d.%d@%s" % (m, k, rng.choice(doms)) for k in range(n)]
+        if p.virtual and rc and rng.random() < 0.3:
+            rc[0] = b"r%d\nx@%s" % (m, rng.choice(doms))         # a newline inside a recipient address
         if rc and rng.random() < p.dup_rcpt:
             rc.append(rc[0])
         token = "%s%04d" % (core.hashlib.sha256(self.label.encode()).hexdigest()[:8], m)
